@@ -24,6 +24,12 @@ pub struct Avoid {
     pub opt_call_paren_callee: bool,
     /// with the plus operator disabled: a bare `+` expression as operand of an instrumented call / template
     pub plain_sum_operand: bool,
+    /// `X.prototype.m.call(..)` where X.prototype.m does not exist
+    pub missing_proto_method: bool,
+    /// `...1`: spread of a literal that is not iterable
+    pub spread_noniterable_literal: bool,
+    /// regular expression literal as operand / argument of an instrumented operation (executable programs only)
+    pub regex_literal_operand: bool,
 }
 
 #[derive(Clone, Debug)]
@@ -45,6 +51,8 @@ pub struct GenOpts {
     pub reserved_prefix: Option<String>,
     pub file_comment_url: bool,
     pub plus_enabled: bool,
+    pub focus_reentrancy: bool,
+    pub focus_strictness: bool,
 }
 
 impl GenOpts {
@@ -62,6 +70,8 @@ impl GenOpts {
             reserved_prefix: None,
             file_comment_url: false,
             plus_enabled: true,
+            focus_reentrancy: false,
+            focus_strictness: false,
         }
     }
 }
@@ -181,7 +191,15 @@ impl<'t, 'a> Gen<'t, 'a> {
         match self.t.weighted(&[5, 3, 2]) {
             0 => self.string_lit(),
             1 => E::raw(*self.t.pick(NUMS)),
-            _ => E::raw(*self.t.pick(OTHER_LITS)),
+            _ => {
+                let l = *self.t.pick(OTHER_LITS);
+                if l.starts_with('/') && self.o.exec && self.o.avoid.regex_literal_operand {
+                    self.redirect("regex_literal_operand");
+                    E::raw("null")
+                } else {
+                    E::raw(l)
+                }
+            }
         }
     }
 
@@ -213,11 +231,15 @@ impl<'t, 'a> Gen<'t, 'a> {
         let n = self.t.weighted(&[3, 4, 2, 1]);
         let mut v = vec![];
         for _ in 0..n {
-            let spread = self.t.chance(30);
+            let mut spread = self.t.chance(30);
+            let e = self.expr(d);
+            if spread && self.o.avoid.spread_noniterable_literal && matches!(&e, E::Raw(r) if !r.starts_with('\'') && !r.starts_with('"')) {
+                self.redirect("spread_noniterable_literal");
+                spread = false;
+            }
             if spread {
                 self.tag("spread-arg");
             }
-            let e = self.expr(d);
             v.push(Arg { spread, e });
         }
         v
@@ -349,8 +371,11 @@ impl<'t, 'a> Gen<'t, 'a> {
                     if self.t.chance(20) {
                         elems.push(None);
                     } else {
-                        let spread = self.t.chance(25);
+                        let mut spread = self.t.chance(25);
                         let e = self.expr(d1);
+                        if spread && self.o.avoid.spread_noniterable_literal && matches!(&e, E::Raw(r) if !r.starts_with('\'') && !r.starts_with('"')) {
+                            spread = false;
+                        }
                         elems.push(Some(Arg { spread, e }));
                     }
                 }
@@ -628,8 +653,28 @@ impl<'t, 'a> Gen<'t, 'a> {
     }
 
     fn proto_call(&mut self, d: usize) -> E {
-        let m = self.method_name();
-        let class = *self.t.pick(&["String", "String", "Array", "K"]);
+        let mut m = self.method_name();
+        let mut class = *self.t.pick(&["String", "String", "Array", "K"]);
+        if self.o.avoid.missing_proto_method {
+            const STRING: &[&str] = &["substring", "trim", "trimStart", "trimEnd", "concat", "replace", "replaceAll", "slice", "padStart", "padEnd", "repeat", "toLowerCase", "toUpperCase"];
+            const ARRAY: &[&str] = &["concat", "slice", "join"];
+            let ok = match class {
+                "String" => STRING.contains(&m.as_str()),
+                "Array" => ARRAY.contains(&m.as_str()),
+                _ => false,
+            };
+            if !ok {
+                self.redirect("missing_proto_method");
+                if ARRAY.contains(&m.as_str()) {
+                    class = "Array";
+                } else if STRING.contains(&m.as_str()) {
+                    class = "String";
+                } else {
+                    class = "String";
+                    m = self.o.methods.iter().chain(self.o.other_methods.iter()).find(|x| STRING.contains(&x.as_str())).cloned().unwrap_or_else(|| "trim".to_string());
+                }
+            }
+        }
         let path = E::Member {
             obj: E::Member { obj: E::id(class).bx(), prop: "prototype".into(), optional: false }.bx(),
             prop: m,
@@ -641,8 +686,13 @@ impl<'t, 'a> Gen<'t, 'a> {
             1 => Arg { spread: false, e: self.expr(d) },
             2 => Arg { spread: false, e: self.string_lit() },
             _ => {
-                self.tag("proto-spread-this");
-                Arg { spread: true, e: self.ident() }
+                if self.o.exec {
+                    // a spread `this` argument makes "the receiver" ill defined: static checks only
+                    Arg { spread: false, e: self.ident() }
+                } else {
+                    self.tag("proto-spread-this");
+                    Arg { spread: true, e: self.ident() }
+                }
             }
         };
         if self.t.flag() {
@@ -904,6 +954,23 @@ impl<'t, 'a> Gen<'t, 'a> {
             if simple_only { 0 } else { 3 },  // 20 recursion
             2,  // 21 var
         ];
+        let mut w = w;
+        if self.o.focus_reentrancy && !simple_only {
+            w[11] = 14;
+            w[12] = 8;
+            w[17] = 8;
+            w[18] = 6;
+            w[20] = 12;
+        }
+        if self.o.focus_strictness && self.sc().in_fn {
+            if self.t.chance(40) {
+                return self.strictness_probe();
+            }
+            if !simple_only {
+                w[11] = 12;
+                w[12] = 6;
+            }
+        }
         match self.t.weighted(&w) {
             0 => {
                 let t = self.assignable_ident();
@@ -1019,9 +1086,17 @@ impl<'t, 'a> Gen<'t, 'a> {
                 self.tag("try");
                 let b1 = self.block(d, sd);
                 let err = self.fresh("err");
-                self.scm().vars.push(err.clone());
-                let b2 = self.block(d, sd);
-                self.scm().vars.pop();
+                // the caught value is not used as an operand in executable programs: engine error messages
+                // mention identifiers and are outside the compared behaviour
+                if !self.o.exec {
+                    self.scm().vars.push(err.clone());
+                }
+                let mut b2 = self.block(d, sd);
+                if !self.o.exec {
+                    self.scm().vars.pop();
+                } else {
+                    b2 = format!("{{ y = 'caught' + ({err} instanceof TypeError) + (typeof {err});\n{}", &b2[1..]);
+                }
                 match self.t.weighted(&[3, 2, 1]) {
                     0 => format!("try {} catch ({}) {}", b1, err, b2),
                     1 => {
@@ -1119,6 +1194,18 @@ impl<'t, 'a> Gen<'t, 'a> {
         }
     }
 
+    /// statements whose behaviour depends on the strictness of the enclosing function
+    fn strictness_probe(&mut self) -> String {
+        self.tag("strictness-probe");
+        let n = self.fresh("sp");
+        match self.t.below(4) {
+            0 => format!("y += (function () {{ return typeof this; }})();"),
+            1 => format!("try {{ {n}undeclared = 1; y += 'sloppy'; }} catch {{ y += 'strict'; }}"),
+            2 => format!("y += (function ({n}) {{ {n} = 2; return arguments[0]; }})(1);"),
+            _ => format!("try {{ Object.freeze([0])[0] = 1; y += 'silent'; }} catch {{ y += 'threw'; }}"),
+        }
+    }
+
     fn wrap_test(e: &E) -> String {
         e.print()
     }
@@ -1136,7 +1223,8 @@ impl<'t, 'a> Gen<'t, 'a> {
                 }
             };
         }
-        match self.t.weighted(&[10, 4, 2, 2, 1, 1]) {
+        let w0 = if self.o.focus_strictness { 3 } else { 10 };
+        match self.t.weighted(&[w0, 4, 2, 2, 1, 1]) {
             0 => String::new(),
             1 => {
                 self.tag("directive");
@@ -1206,10 +1294,11 @@ impl<'t, 'a> Gen<'t, 'a> {
             Some(e) => format!("{}, {} = {}", p, q, Self::arg_text(e)),
             None => format!("{}, {}", p, q),
         };
-        self.scm().fns.push(name.clone());
         self.push_fn_scope(&[p, q], false, false, false);
         let body = self.fn_body(d, sd, dflt.is_none());
         self.scopes.pop();
+        // callable only after its definition: no unbounded self recursion
+        self.scm().fns.push(name.clone());
         let a = self.args(d);
         let t = self.assignable_ident();
         let call = E::Call { callee: E::Id(name.clone()).bx(), args: a, optional: false };
@@ -1237,17 +1326,17 @@ impl<'t, 'a> Gen<'t, 'a> {
             Some(e) => format!("{}, {} = {}", n, p, Self::arg_text(e)),
             None => format!("{}, {}", n, p),
         };
-        self.scm().fns.push(name.clone());
         self.push_fn_scope(&[p.clone()], false, false, false);
         // operands contain the recursive call, so temporaries are live across re-entry
         let inner = self.expr(d.min(2));
         let inner2 = self.expr(d.min(2));
         self.scopes.pop();
+        self.scm().fns.push(name.clone());
         let t = self.assignable_ident();
         let arg = self.expr(d.min(2));
         let rec_args = if dflt.is_some() && self.t.flag() { format!("{n} - 1") } else { format!("{n} - 1, {}", Self::arg_text(&inner2)) };
         format!(
-            "function {name}({params}) {{\nif ({n} <= 0) return {p};\nreturn {} + {name}({rec_args}) + {p};\n}}\n{} = {name}(2, {});",
+            "function {name}({params}) {{\nif (!({n} > 0 && {n} < 4)) return {p};\nreturn {} + {name}({rec_args}) + {p};\n}}\n{} = {name}(2, {});",
             Self::plus_operand(&inner),
             t.print(),
             Self::arg_text(&arg)
